@@ -199,7 +199,8 @@ def c24_history(k: int) -> bool:
 
 _N0, _N1, _N3 = len(_commands(0)), len(_commands(1)), len(_commands(3))
 CONDITIONS = [
-    Condition(c24_history, slices=[(3, 0, f) for f in range(_N0)] + [(2, 1, f) for f in range(0, _N1, 3)] + [(2, 3, f) for f in range(_N3)],
+    Condition(c24_history, slices=[(3, 0, f) for f in range(_N0)] + [(2, 1, f) for f in range(0, _N1, 3)] + [(2, 3, f) for f in range(_N3)]
+              + [(2, 2, 16), (2, 2, 38), (2, 2, 44)],  # first command writes a null value (level 2)
               thorough_slices=[(2, 1, f) for f in range(_N1)] + [(2, 2, f) for f in range(0, len(_commands(2)), 2)]
               + [(4, 0, f) for f in range(_N0)] + [(3, 3, f) for f in range(_N3)],
               timeout=170, thorough_timeout=2400,
